@@ -57,6 +57,35 @@ def suite(tier, seed):
         cases.append(dict(inp, mask=None, group="large", base=base))
         m = T.with_mask(rng, inp, "random")
         cases.append(dict(m, group="large", base=base))
+    # density contrast: a dense cluster in a corner of the box and a few distant generators; the selected cells are the cluster's extreme
+    # points, whose cells border the void and have the distant generators as neighbours (any pruning of "far" generators in a partial
+    # build shows here and nowhere else)
+    for j in range(2 if tier == "quick" else 8):
+        dim = 3 if j % 2 == 0 else 2
+        n = rng.range(300, 500) if dim == 3 else rng.range(150, 300)
+        width = [1.0, 1.0, 1.0]
+        anchor = [0.0, 0.0, 0.0]
+        gens = [[0.01 + 0.05 * rng.unit() if a < dim else 0.0 for a in range(3)] for _ in range(n)]
+        for a in range(dim):
+            far = [0.02 + 0.03 * rng.unit() if b < dim else 0.0 for b in range(3)]
+            far[a] = 0.8 + 0.15 * rng.unit()
+            gens.append(far)
+        gens.append([0.9 if a < dim else 0.0 for a in range(3)])
+        inp = T.dedupe({"family": "contrast", "dim": dim, "periodic": False, "anchor": anchor, "width": width, "gens": gens, "mask": None})
+        base = len(cases)
+        cases.append(dict(inp, mask=None, group="contrast", base=base))
+        g = inp["gens"]
+        ncl = len(g) - dim - 1
+        for a in range(dim):
+            i = max(range(ncl), key=lambda t: g[t][a])
+            mk = [False] * len(g)
+            mk[i] = True
+            cases.append(dict(inp, mask=mk, group="contrast", base=base))
+        mk = [False] * len(g)
+        for a in range(dim):
+            mk[max(range(ncl), key=lambda t: g[t][a])] = True
+            mk[min(range(ncl), key=lambda t: g[t][a])] = True
+        cases.append(dict(inp, mask=mk, group="contrast", base=base))
     return cases
 
 
